@@ -120,16 +120,16 @@ def case(rng, n_grains=None, pair=None, regime=None, okind=None, lkind=None, fki
 def block_sizes(tier="quick", cap=None):
     """Grain counts at which a size-dependent code path (block / stride / chunk / slice-bound logic, `[-0:]`
     tails, power-of-two fast paths) changes behaviour: every power of two up to 2^14 (thorough: 2^16) with both
-    neighbours, and multiples of 64 / 128 / 256 / 1000 / 1024.  Added after the seeded change C03d (mean strain
+    neighbours, and multiples of 64 / 100 / 128 / 256 / 1000 / 1024.  Added after the seeded change C03d (mean strain
     energy summed in blocks of 128: wrong exactly when n_grains is a multiple of 128), which no generator
     reached -- sizes were 1..64 and round decimal numbers."""
     kmax = 14 if tier == "quick" else 16
     s = set()
     for k in range(kmax + 1):
         s |= {2 ** k - 1, 2 ** k, 2 ** k + 1}
-    mult = {64: (1, 2, 3, 5), 128: (1, 2, 3, 5, 7), 256: (1, 3, 5), 1000: (1, 2, 3, 5, 10), 1024: (1, 2, 3, 5, 9)}
+    mult = {64: (1, 2, 3, 5), 100: (1, 2, 3, 5, 10), 128: (1, 2, 3, 5, 7), 256: (1, 3, 5), 1000: (1, 2, 3, 5, 10), 1024: (1, 2, 3, 5, 9)}
     if tier != "quick":
-        mult = {64: range(1, 17), 128: range(1, 33), 256: range(1, 17), 1000: (1, 2, 3, 5, 10, 20, 50, 100),
+        mult = {64: range(1, 17), 100: range(1, 21), 128: range(1, 33), 256: range(1, 17), 1000: (1, 2, 3, 5, 10, 20, 50, 100),
                 1024: range(1, 33)}
     for b, ks in mult.items():
         s |= {b * k for k in ks}
